@@ -128,15 +128,20 @@ def _functions_ref():
 
 
 class Module:
-    def __init__(self, name, path, text):
+    def __init__(self, name, path, text, raw=None, new_consts=None):
         self.name = name  # e.g. "pecc"
         self.path = path  # e.g. "buidl/pecc.py"
         self.text = text
         self.sha256 = hashlib.sha256(text.encode()).hexdigest()
+        from .constprop import substitute
         from .inline import Inliner
         from .normal import normalise
 
-        raw = ast.parse(text, filename=path)
+        raw = raw if raw is not None else ast.parse(text, filename=path)
+        # named constants that do not exist in the reference tree are written out (sa/constprop.py)
+        self.new_consts = new_consts or ({}, {}, {})
+        if any(self.new_consts):
+            raw = substitute(raw, self.new_consts[0], self.new_consts[1], self.new_consts[2])
         # helpers that do not exist in the reference tree are inlined back into their callers (sa/inline.py)
         ref_funcs = _functions_ref().get(name)
         self.inlined = Inliner(raw, name, set(ref_funcs)).run() if ref_funcs is not None else []
@@ -233,6 +238,10 @@ class Repo:
         pkgdir = os.path.join(self.root, PKG)
         if not os.path.isdir(pkgdir):
             raise AnalysisError("package directory %s missing" % pkgdir)
+        from .constprop import new_constants
+
+        texts, raws, consts = {}, {}, {}
+        fref = _functions_ref()
         for fn in sorted(os.listdir(pkgdir)):
             if not fn.endswith(".py"):
                 continue
@@ -242,10 +251,27 @@ class Repo:
             else:
                 with open(os.path.join(pkgdir, fn), encoding="utf-8") as f:
                     text = f.read()
+            name = fn[:-3]
             try:
-                m = Module(fn[:-3], rel, text)
+                raws[name] = ast.parse(text, filename=rel)
             except SyntaxError as e:
                 raise AnalysisError("cannot parse %s: %s" % (rel, e))
+            texts[name] = (rel, text)
+            ref_c = fref.get(name + "#constants")
+            consts[name] = new_constants(raws[name], set(ref_c)) if ref_c is not None else ({}, {})
+        for name, (rel, text) in texts.items():
+            # constants introduced in another module and imported here
+            imported = {}
+            for st in ast.walk(raws[name]):
+                if isinstance(st, ast.ImportFrom) and (st.module or "").startswith(PKG + "."):
+                    src = self.alias((st.module or "").split(".")[-1])
+                    mc = consts.get(src, ({}, {}))[0]
+                    for al in st.names:
+                        if al.name == "*":
+                            imported.update(mc)
+                        elif al.name in mc:
+                            imported[al.asname or al.name] = mc[al.name]
+            m = Module(name, rel, text, raw=raws[name], new_consts=(consts[name][0], consts[name][1], imported))
             self.modules[m.name] = m
             self.files[rel] = m.sha256
         self.data_files = {}
